@@ -620,6 +620,29 @@ def run_npz(case, seed):
             if bad:
                 return fail(f"{cname}.npz:mismatch:{bad[0]}", f"{name} {case}: {bad[1]}")
             nts.append(("npz", name, NK, bk.NNB, case["NB"], case["NW"], case["pattern"], case["subset"]))
+            # the same object with its per-k-point dictionaries filled in another order (k-points read in a permuted order,
+            # selected_kpoints given unsorted): a dictionary is keyed by k-point, not by insertion position
+            import copy
+            for oname, reorder in (("reversed", lambda ks: ks[::-1]), ("rotated", lambda ks: ks[1:] + ks[:1])):
+                o2 = copy.deepcopy(obj)
+                changed = False
+                for att, val in list(vars(o2).items()):
+                    if isinstance(val, dict) and len(val) > 1 and all(isinstance(k, (int, np.integer)) for k in val):
+                        ks = reorder(list(val.keys()))
+                        setattr(o2, att, {k: val[k] for k in ks})
+                        changed = True
+                if not changed:
+                    break
+                path2 = os.path.join(d, f"x.{name}.{oname}.npz")
+                try:
+                    o2.to_npz(path2)
+                    back2 = type(obj).from_npz(path2)
+                except Exception as ex:
+                    return fail(f"{cname}.npz:insertion_order:{type(ex).__name__}", f"{name} {case} dictionaries filled in {oname} order: {ex}")
+                bad = compare_obj(name, obj, back2)
+                if bad:
+                    return fail(f"{cname}.npz:insertion_order:{bad[0]}",
+                                f"{name} {case}: saved from an object whose per-k dictionaries were filled in {oname} order: {bad[1]}")
     return {"ok": True, "nontrivial": nts}
 
 
